@@ -27,7 +27,22 @@ import (
 	interp "symgo"
 )
 
-const verifRoot = "/verif"
+// verifRoot is the verification tree this binary belongs to: <root>/bin/symgo
+// (SYMGO_VERIF overrides; /verif is the fallback).  Keeping it relative to the
+// binary lets a snapshot of the tree run side by side with /verif.
+var verifRoot = func() string {
+	if v := os.Getenv("SYMGO_VERIF"); v != "" {
+		return v
+	}
+	if self, err := os.Executable(); err == nil {
+		if r := filepath.Dir(filepath.Dir(self)); r != "/" && r != "." {
+			if _, err := os.Stat(filepath.Join(r, "specs")); err == nil {
+				return r
+			}
+		}
+	}
+	return "/verif"
+}()
 
 type loadSpec struct {
 	Dir       string            // module dir (/repo)
